@@ -777,6 +777,12 @@ func checkProperty(opt *Options, start time.Time) int {
 			notes[n] = true
 		}
 		nCheck := 0
+		for _, o := range r.Obls {
+			if o.Check && o.Kind == "shape" && o.Result != "unsat" {
+				r.Errs = append(r.Errs, fmt.Sprintf("%s is not discharged: the loop no longer has the shape its invariants were written for (contract and code out of step; undecided)", o.Name))
+				errors = append(errors, r.Key+": "+r.Errs[len(r.Errs)-1])
+			}
+		}
 		if len(r.Errs) > 0 {
 			// the function could not be translated / its contract could not be evaluated: undecided, not violated
 			continue
